@@ -12,6 +12,9 @@ CONSTANTS
   KAmounts = {0, 1, 3, 1000, 900001, 1255640255}
   KBorrowed = {0, 5, 2000000}
   KMaxDepth = 3
+  SBanks <- NoBanks
+  SAmounts = {0}
+  SBorrowed <- NoTuples
   DBanks <- NoBanks
   DAmounts = {0}
   DCums <- NoTuples
